@@ -407,6 +407,18 @@ def main():
     for _ in range(600 if tier == 'quick' else 4000):
         n = rng.randint(N + 1, N + 4)
         longer.append(tuple(rng.choice(ALPHA) for _ in range(n)))
+    # (c) the juxtaposition family, complete over its small grammar: two operands side by side (every pairing of literal, identifier, empty group,
+    # group, call) at the top level, below a prefix operator, as the right operand of a binary / assignment operator, as a call argument, inside
+    # parentheses; with and without a following operator
+    operands = [['1'], ['a'], ['(', ')'], ['(', '1', ')'], ['(', 'a', ')'], ['a', '1'], ['a', '(', '1', ')']]
+    prefixes = [[], ['-'], ['!'], ['a', '?'], ['1', '?'], ['a', '='], ['a'], ['1', '-'], ['1', '~']]
+    suffixes = [[], ['?', '1']]
+    for pre in prefixes:
+        for x in operands:
+            for y in operands:
+                for suf in suffixes:
+                    longer.append(tuple(pre + x + y + suf))
+                    longer.append(tuple(['('] + pre + x + y + [')'] + suf))
     longer = [s for s in dict.fromkeys(longer) if (not wellformed(s)) or balanced(s)]
     seqs += longer
     random.Random(seed).shuffle(seqs)
